@@ -1051,6 +1051,11 @@ func (a *analysis) checkThenAct(res *result, remap map[int]int, acq map[*types.F
 				r = &ctaOut{Func: p.fn, Lock: remap[k], Source: p.src.name, CondPos: p.condPos, ActPos: p.actPos}
 				rows[kk] = r
 			}
+			// the representative lock of a grouped row: the smallest id (not
+			// the first one the map iteration happens to yield)
+			if remap[k] < r.Lock {
+				r.Lock = remap[k]
+			}
 			if !strings.Contains(";"+r.LockName+";", ";"+a.classByID(k)+";") {
 				if r.LockName != "" {
 					r.LockName += ";"
